@@ -1,5 +1,4 @@
 # NA[id] = reason. Properties whose check is not implemented yet are listed with that reason and move to claims.py when done.
 NA['C08'] = 'Byte-identity of .idx/.rev with git and object-set equality quantify over pack contents (runtime values); no code-shape clause beyond the idx section order, which is checked under C10.'
 NA['C25'] = 'Equality of worktree bytes, modes and index with a commit over generated tree pairs is a value property.'
-NA['C28'] = 'Index/tree equality with git over operation sequences is a value property (the structural part, trees written only through the validated Tree.Encode, is C04).'
 NA['C46'] = 'Line attribution over histories is a value property.'
